@@ -78,6 +78,9 @@ KNOWN_CLASSES = {
     "empty_allOf_closed_object": lambda kind, tags: "AllOf" in tags and kind == "member-but-invalid-against-schema",
     "empty_prefixItems": lambda kind, tags: "Tuple" in tags and kind == "schema-not-wellformed",
     "allOf_non_object_member": lambda kind, tags: "AllOf" in tags and kind == "valid-against-schema-but-rejected",
+    "required_property_accepting_undefined": lambda kind, tags: "RequiredAcceptsUndefined" in tags and kind == "member-but-invalid-against-schema",
+    "optional_nullish_property_is_required": lambda kind, tags: "OptionalNullish" in tags and kind == "member-but-invalid-against-schema",
+    "prototype_named_property": lambda kind, tags: "ProtoKey" in tags and kind in ("valid-against-schema-but-rejected", "member-but-invalid-against-schema"),
 }
 
 
